@@ -52,7 +52,99 @@ def independent_decode(path):
         return data.T
 
 
+def synth_psrfits(path, ascending, rng, nsblk=16, nsubint=4, nchan=8, npol=4):
+    """A small 8-bit search-mode PSRFITS file (TPF order, coherence products) whose scales, offsets and weights differ from
+    channel to channel and from row to row, with the band in either order (astropy only)."""
+    from astropy.io import fits
+    raw = rng.integers(0, 256, size=(nsubint, nsblk, npol, nchan), dtype=np.uint8)
+    scl = rng.integers(1, 5, size=(nsubint, npol * nchan)).astype(np.float32) / 2
+    offs = rng.integers(-8, 9, size=(nsubint, npol * nchan)).astype(np.float32)
+    wts = rng.integers(0, 5, size=(nsubint, nchan)).astype(np.float32) / 4
+    tbin, step = 64e-6, (2.0 if ascending else -2.0)
+    freq = 1400.0 + step * np.arange(nchan)
+    pri = fits.PrimaryHDU()
+    for key, val in {"HDRVER": "6.1", "FITSTYPE": "PSRFITS", "OBSERVER": "X", "PROJID": "P000", "TELESCOP": "Parkes",
+                     "ANT_X": -4554231.6, "ANT_Y": 2816759.1, "ANT_Z": -3454036.1, "FRONTEND": "RX", "IBEAM": 1, "NRCVR": 2,
+                     "FD_POLN": "LIN", "FD_HAND": -1, "FD_SANG": 0.0, "FD_XYPH": 0.0, "BACKEND": "BE", "BECONFIG": "cfg",
+                     "BE_PHASE": 1, "BE_DCC": 1, "BE_DELAY": 0.0, "TCYCLE": 0.0, "OBS_MODE": "SEARCH",
+                     "DATE-OBS": "2019-03-01T07:55:14", "OBSFREQ": float(freq.mean()), "OBSBW": step * nchan, "OBSNCHAN": nchan,
+                     "CHAN_DM": 0.0, "SRC_NAME": "J0000+0000", "RA": "05:34:31.900", "DEC": "+22:00:52.000", "FD_MODE": "FA",
+                     "FA_REQ": 0.0, "STT_IMJD": 58543, "STT_SMJD": 28543, "STT_OFFS": 0.25}.items():
+        pri.header[key] = val
+    cols = [fits.Column(name="TSUBINT", format="1D", array=np.full(nsubint, nsblk * tbin)),
+            fits.Column(name="OFFS_SUB", format="1D", array=(np.arange(nsubint) + 0.5) * nsblk * tbin),
+            fits.Column(name="DAT_FREQ", format=f"{nchan}D", array=np.tile(freq, (nsubint, 1))),
+            fits.Column(name="DAT_WTS", format=f"{nchan}E", array=wts),
+            fits.Column(name="DAT_OFFS", format=f"{nchan * npol}E", array=offs),
+            fits.Column(name="DAT_SCL", format=f"{nchan * npol}E", array=scl),
+            fits.Column(name="DATA", format=f"{nsblk * npol * nchan}B", dim=f"({nchan},{npol},{nsblk})", array=raw)]
+    tab = fits.BinTableHDU.from_columns(cols, name="SUBINT")
+    for key, val in {"INT_TYPE": "TIME", "INT_UNIT": "SEC", "SCALE": "FluxDen", "POL_TYPE": "AABBCRCI", "NPOL": npol, "TBIN": tbin,
+                     "NBIN": 1, "NBITS": 8, "ZERO_OFF": 2.0, "SIGNINT": 0, "NSUBOFFS": 0, "NCHAN": nchan, "CHAN_BW": step,
+                     "NSBLK": nsblk, "NSTOT": nsblk * nsubint}.items():
+        tab.header[key] = val
+    fits.HDUList([pri, tab]).writeto(path, overwrite=True)
+
+
+def synthetic_files(rep, tier, seed):
+    """Whole-file and sub-range reads of synthetic files with channel-dependent calibration, both band orders."""
+    rng = np.random.default_rng(seed + 18)
+    tmp = tempfile.mkdtemp(prefix="pvc_c18s_")
+    try:
+        for ascending in (False, True):
+            p = os.path.join(tmp, f"syn_{int(ascending)}.sf")
+            inp = dict(file="synthetic 8-bit PSRFITS", ascending_band=ascending, nchan=8, nsblk=16, nsubint=4)
+            rep.case(("synthetic", ascending))
+            try:
+                synth_psrfits(p, ascending, rng)
+                ref = independent_decode(p)
+            except Exception as exc:  # noqa: BLE001
+                rep.fail("could not build / decode the synthetic PSRFITS file", function="bounded/c18.py::synth_psrfits", input=inp, observed=repr(exc)[:200])
+                continue
+            try:
+                r = PFITSReader(p)
+                N, nchans = r.header.nsamples, r.header.nchans
+                whole = np.asarray(r.read_block(0, N).data)
+            except Exception as exc:  # noqa: BLE001
+                rep.fail(f"reading the synthetic PSRFITS file raised {type(exc).__name__}", function="readers.py::PFITSReader.read_block", input=inp,
+                         observed=str(exc)[:200])
+                continue
+            scale = max(1.0, float(np.abs(ref).max()))
+            rep.check(whole.shape == ref.shape and bool(np.all(np.abs(ref - whole) <= 2e-5 * scale)),
+                      "whole-file read differs from (raw - ZERO_OFF) * DAT_SCL + DAT_OFFS, times DAT_WTS, polarisations summed, descending "
+                      "frequency (channel-dependent calibration)", function="pfits.py::PFITSFile.read_subint", input=inp,
+                      observed=whole[:2, :3].tolist() if whole.ndim == 2 else None, required=ref[:2, :3].tolist())
+            for (s, n) in ((0, 16), (5, 7), (13, 6), (9, 40), (31, 33), (N - 1, 1)):
+                rep.case(("synthetic-block", ascending, s, n))
+                try:
+                    b = np.asarray(r.read_block(s, n).data)
+                    rep.check(b.shape == (nchans, n) and np.array_equal(b, whole[:, s:s + n]),
+                              "read_block differs from the columns of the whole-file read (synthetic file)",
+                              function="readers.py::PFITSReader.read_block", input=dict(inp, start=s, nsamps=n))
+                except Exception as exc:  # noqa: BLE001
+                    rep.fail(f"read_block raised {type(exc).__name__} (synthetic file)", function="readers.py::PFITSReader.read_block",
+                             input=dict(inp, start=s, nsamps=n), observed=str(exc)[:120])
+            for gulp, sk in ((5, 0), (23, 0), (40, 20), (50, 33)):
+                rep.case(("synthetic-plan", ascending, gulp, sk))
+                off, ok, why = 0, True, ""
+                try:
+                    for k, (cnt, ii, d) in enumerate(r.read_plan(gulp=gulp, skipback=sk, quiet=True)):
+                        if not np.array_equal(np.asarray(d, dtype=np.float32).reshape(cnt, nchans).T, whole[:, off:off + cnt]):
+                            ok, why = False, f"block {k} contents"
+                            break
+                        off += cnt - sk
+                    if ok and off + sk != N:
+                        ok, why = False, f"covered {off + sk} of {N}"
+                except Exception as exc:  # noqa: BLE001
+                    ok, why = False, f"{type(exc).__name__}: {exc}"
+                rep.check(ok, "read_plan does not deliver each sample exactly once (synthetic file): " + why,
+                          function="readers.py::PFITSReader.read_plan", input=dict(inp, gulp=gulp, skipback=sk))
+    finally:
+        shutil.rmtree(tmp, ignore_errors=True)
+
+
 def sweep_impl(rep, tier, seed):
+    synthetic_files(rep, tier, seed)
     rng = np.random.default_rng(seed)
     r = PFITSReader(FIX)
     h = r.header
